@@ -73,7 +73,35 @@ fn near_valid_xz(t: &mut Tape) -> Vec<u8> {
     bytes
 }
 
+/// Very many whole .xz streams one after the other (stored as one stream and a
+/// count): more than one stream is outside the supported subset, so the answer is
+/// an error - but it has to be an answer, however many streams follow.
+fn gen_many_streams(t: &mut Tape) -> Scenario {
+    let mut sc = Scenario::new("c07");
+    sc.set_i("ep", EP_XZ);
+    let mut plan = gen_xz_plan(t, 8);
+    while plan.blocks.len() > 1 {
+        plan.blocks.pop();
+    }
+    let unit = build_xz(&plan).bytes;
+    let n = [2u64, 3, 1000, 30_000, 120_000][t.below(5) as usize];
+    sc.set_i("rep_n", n);
+    sc.note = format!("{} valid .xz streams of {} bytes one after the other", n, unit.len());
+    sc.set_b("input", unit);
+    OptSpec::default().store(&mut sc);
+    RawSpec::default().store(&mut sc);
+    sc.set_i("rk", [RK_SLICE, RK_SIM, RK_BUFREADER][t.below(3) as usize]);
+    sc.set_i("bufcap", crate::gen::draw_bufcap(t, 100));
+    if sc.i("rk") != RK_SLICE {
+        sc.set_l("src_script", vec![t.range(1000, 70_000)]);
+    }
+    sc
+}
+
 fn gen(t: &mut Tape, _tier: Tier) -> Scenario {
+    if t.below(400) == 0 {
+        return gen_many_streams(t);
+    }
     let mut sc = Scenario::new("c07");
     let ep = [EP_LZMA, EP_LZMA, EP_LZMA2, EP_XZ, EP_XZ, EP_STREAM, EP_STREAM, EP_RAW_LZMA, EP_RAW_LZMA2][t.below(9) as usize];
     sc.set_i("ep", ep);
@@ -340,7 +368,15 @@ fn exec(sc: &Scenario, ctx: &mut Ctx) -> Vec<Violation> {
     let ep = sc.i("ep");
     let opts = OptSpec::load(sc);
     let raw = RawSpec::load(sc);
-    let input = sc.b("input");
+    let repeated;
+    let input: &[u8] = if sc.has_i("rep_n") {
+        ctx.stats.hit("arm.many_concatenated_xz_streams");
+        ctx.stats.max("max_concatenated_streams", sc.i("rep_n"));
+        repeated = sc.b("input").repeat(sc.i("rep_n") as usize);
+        &repeated
+    } else {
+        sc.b("input")
+    };
     // constructor of the raw decoder: a panic there means "does not accept"
     if ep == EP_RAW_LZMA {
         let r = guarded(|| {
